@@ -10,6 +10,7 @@ mod cagent;
 mod cmdlane;
 mod sent;
 mod sup;
+mod util;
 
 use vcommon::Ctx;
 
